@@ -74,12 +74,17 @@ func ruleCTAgree(r *Run) {
 	accept := p.StructField("streamHTTP", "accept")
 	// (a) writeMsg sets Content-Type from its contentType parameter, before any body write of the first message
 	var set ssa.Instruction
-	eachInstr(wm, func(in ssa.Instruction) {
+	isCTSet := func(in ssa.Instruction) bool {
 		c, ok := in.(ssa.CallInstruction)
 		if !ok || calleeName(c) != "(net/http.Header).Set" {
-			return
+			return false
 		}
-		if k, ok := constString(c.Common().Args[1]); ok && strings.EqualFold(k, "Content-Type") {
+		k, ok := constString(c.Common().Args[1])
+		return ok && strings.EqualFold(k, "Content-Type")
+	}
+	// (in writeMsg or in a helper it calls: s.beginResponse(contentType))
+	p.eachInstrR(wm, func(in ssa.Instruction) {
+		if isCTSet(in) {
 			set = in
 		}
 	})
@@ -122,7 +127,15 @@ func ruleCTAgree(r *Run) {
 			}
 			return true
 		}
-		q := pathQuery{fn: wm, edgeOK: firstMsg, barrier: func(in ssa.Instruction) bool { return in == set }, target: isBodyWrite}
+		q := pathQuery{fn: wm, edgeOK: firstMsg, barrier: func(in ssa.Instruction) bool {
+			if in == set {
+				return true
+			}
+			if c, ok := in.(ssa.CallInstruction); ok && set.Parent() != wm {
+				return p.callMust(c, isCTSet)
+			}
+			return false
+		}, target: isBodyWrite}
 		w, _ := q.find()
 		r.check(w == nil, "(*streamHTTP).writeMsg/content-type-before-body", set.Pos(), "on the first message Content-Type is set before any body byte is written",
 			"on the first message a body write can precede the Content-Type header write (the header is then already sent)")
